@@ -140,6 +140,36 @@ fn positive_cfg(rng: &mut Rng) -> BuildCfg {
             verify: None,
         });
     }
+    // explicit entries for directories that contain other entries (their archived mode must win over
+    // whatever mode the directory got when it was created for its children)
+    let parents: Vec<String> = cfg
+        .files
+        .iter()
+        .filter_map(|f| {
+            let p = installed_path(&f.dest);
+            let cut = p.rfind('/')?;
+            if cut == 0 { None } else { Some(p[..cut].to_string()) }
+        })
+        .collect();
+    for p in parents {
+        if rng.chance(1, 2) && !cfg.files.iter().any(|f| installed_path(&f.dest) == p) {
+            cfg.files.push(FileCfg {
+                dest: p,
+                content_kind: "zero".into(),
+                size: 0,
+                content_seed: 0,
+                mode: Some(0o040000 | [0o755, 0o700, 0o1777, 0o2775, 0o750, 0o711][rng.usize(6)]),
+                source_perm: 0o644,
+                user: None,
+                group: None,
+                flags: vec![],
+                caps: None,
+                symlink: None,
+                mtime: 1_500_000_000,
+                verify: None,
+            });
+        }
+    }
     cfg
 }
 
@@ -189,6 +219,9 @@ fn check_target(cfg: &BuildCfg, target: &Path) -> Vec<(String, String)> {
 // hostile part
 
 struct Hostile {
+    /// address archive entries by header index (stripped cpio) instead of by name: duplicate paths
+    /// stay distinguishable
+    stripped: bool,
     label: String,
     files: Vec<HFile>,
     contents: Vec<Vec<u8>>,
@@ -209,7 +242,7 @@ fn hostile_cases(jail_root: &Path, rng: &mut Rng, n_random: usize) -> Vec<Hostil
     let mut add = |label: &str, items: Vec<(HFile, Vec<u8>)>| {
         let (files, contents): (Vec<HFile>, Vec<Vec<u8>>) = items.into_iter().unzip();
         let n = files.len();
-        out.push(Hostile { label: label.to_string(), files, contents, names: vec![None; n] });
+        out.push(Hostile { stripped: false, label: label.to_string(), files, contents, names: vec![None; n] });
     };
     let reg = 0o100644u16;
     // '..' components
@@ -255,8 +288,8 @@ fn hostile_cases(jail_root: &Path, rng: &mut Rng, n_random: usize) -> Vec<Hostil
     // cpio name disagrees with the header
     let (f1, c1) = hfile("/a/", "one", reg, b"content one", "");
     let (f2, c2) = hfile("/a/", "two", reg, b"content two", "");
-    out.push(Hostile { label: "cpio-name-disagrees".into(), files: vec![f1.clone(), f2.clone()], contents: vec![c1.clone(), c2.clone()], names: vec![Some(b"./a/two".to_vec()), Some(b"./a/one".to_vec())] });
-    out.push(Hostile { label: "cpio-name-dotdot".into(), files: vec![f1, f2], contents: vec![c1, c2], names: vec![Some(b"./../../escaped-by-cpio-name".to_vec()), Some(format!("{outside}/abs-cpio-name").into_bytes())] });
+    out.push(Hostile { stripped: false, label: "cpio-name-disagrees".into(), files: vec![f1.clone(), f2.clone()], contents: vec![c1.clone(), c2.clone()], names: vec![Some(b"./a/two".to_vec()), Some(b"./a/one".to_vec())] });
+    out.push(Hostile { stripped: false, label: "cpio-name-dotdot".into(), files: vec![f1, f2], contents: vec![c1, c2], names: vec![Some(b"./../../escaped-by-cpio-name".to_vec()), Some(format!("{outside}/abs-cpio-name").into_bytes())] });
     // seeded combinations of the ingredients
     let dirs = ["/a/", "/a/b/", "/../", "/a/../../", "/a/lnk/", "/", "//", "/a/./", &format!("{outside}/")];
     let bases = ["f", "lnk", "../up", "x/y", "", ".", "..", "canary.txt", "secret"];
@@ -273,7 +306,16 @@ fn hostile_cases(jail_root: &Path, rng: &mut Rng, n_random: usize) -> Vec<Hostil
         }
         let (files, contents): (Vec<HFile>, Vec<Vec<u8>>) = items.into_iter().unzip();
         let nn = files.len();
-        out.push(Hostile { label: "random-combination".into(), files, contents, names: vec![None; nn] });
+        out.push(Hostile { stripped: false, label: "random-combination".into(), files, contents, names: vec![None; nn] });
+    }
+    // every case once more with index-addressed (stripped) archive entries
+    let n = out.len();
+    for i in 0..n {
+        let h = &out[i];
+        if h.names.iter().all(|x| x.is_none()) {
+            let c = Hostile { stripped: true, label: h.label.clone(), files: h.files.clone(), contents: h.contents.clone(), names: h.names.clone() };
+            out.push(c);
+        }
     }
     out
 }
@@ -281,11 +323,15 @@ fn hostile_cases(jail_root: &Path, rng: &mut Rng, n_random: usize) -> Vec<Hostil
 fn hostile_package(h: &Hostile) -> Vec<u8> {
     let mut archive = Vec::new();
     for (i, f) in h.files.iter().enumerate() {
-        let name = h.names[i].clone().unwrap_or_else(|| [b".".as_slice(), &f.path()].concat());
-        archive.extend(mcpio::enc_newc(&name, f.mode as u32, i as u32 + 1, &h.contents[i]));
+        if h.stripped {
+            archive.extend(mcpio::enc_stripped(i as u32, &h.contents[i]));
+        } else {
+            let name = h.names[i].clone().unwrap_or_else(|| [b".".as_slice(), &f.path()].concat());
+            archive.extend(mcpio::enc_newc(&name, f.mode as u32, i as u32 + 1, &h.contents[i]));
+        }
     }
     archive.extend(mcpio::enc_trailer());
-    package_with_files("hostile", &h.files, &archive, None, false)
+    package_with_files("hostile", &h.files, &archive, None, h.stripped)
 }
 
 fn run(ctx: &Ctx, rep: &Report) {
@@ -346,7 +392,7 @@ fn run(ctx: &Ctx, rep: &Report) {
         let cases = hostile_cases(&jroot, &mut rng, nrand);
         let h = &cases[i as usize];
         let bytes = hostile_package(h);
-        let w = || json!({"kind": "hostile", "label": h.label, "index": i, "entries": h.files.iter().map(|f| json!({"dir": String::from_utf8_lossy(&f.dir), "base": String::from_utf8_lossy(&f.base), "mode": format!("{:o}", f.mode), "linkto": String::from_utf8_lossy(&f.linkto)})).collect::<Vec<_>>()});
+        let w = || json!({"kind": "hostile", "label": h.label, "archive": if h.stripped { "stripped (index-addressed)" } else { "newc (name-addressed)" }, "index": i, "entries": h.files.iter().map(|f| json!({"dir": String::from_utf8_lossy(&f.dir), "base": String::from_utf8_lossy(&f.base), "mode": format!("{:o}", f.mode), "linkto": String::from_utf8_lossy(&f.linkto)})).collect::<Vec<_>>()});
         let pkg = match guard(|| Package::parse(&mut &bytes[..])) {
             Ok(Ok(p)) => p,
             _ => {
@@ -365,6 +411,7 @@ fn run(ctx: &Ctx, rep: &Report) {
             Err(_) => "panic",
         }), 1);
         rep.count(&format!("hostile.family.{}", h.label.split(':').next().unwrap_or("")), 1);
+        rep.count(if h.stripped { "hostile.archive.stripped" } else { "hostile.archive.newc" }, 1);
         if !diff.is_empty() {
             rep.violation(format!("escape:{}", h.label), format!("extraction changed the jail outside the target: {}", diff.join("; ")), w(), h.files.len() as u64);
         }
